@@ -68,6 +68,7 @@ func genC10(g *simrt.Tape, tier string) any {
 			}
 			genCtx(g, &call)
 			call.Via = genVia(g)
+			call.Bytes = g.Draw(3) == 0
 			if g.Draw(10) == 0 {
 				// another client of the same process (a clone) makes a call of its own in between
 				call = CallSc{Kind: "clone"}
@@ -151,6 +152,16 @@ func c10SweepFloor(tier string) []*ClientSc {
 			{Calls: []CallSc{{Kind: "request", Via: via}, {Kind: "request", Via: via}}},
 			{Calls: []CallSc{{Kind: "request", Via: via}, {Kind: "request"}}},
 		}})
+	}
+	// responses that carry byte strings, through every entry point, single and batched, by one caller after the other
+	// and by two at once: what a call was given is still what it holds when the run ends
+	for _, via := range []string{"", "roundtrip", "exec"} {
+		out = append(out, &ClientSc{Prop: "C10", Enforce: true, Behav: []ReqBehav{{Yields: 1}}, FinalClose: true, Callers: []CallerSc{
+			{Calls: []CallSc{{Kind: "request", Via: via, Bytes: true}, {Kind: "request", Via: via, Bytes: true}, {Kind: "batch", N: 2, Bytes: true}}},
+			{Calls: []CallSc{{Kind: "batch", N: 3, Via: via, Bytes: true}, {Kind: "request", Bytes: true}}},
+		}})
+		out = append(out, &ClientSc{Prop: "C10", Enforce: true, NestMw: true, FinalClose: true, Callers: []CallerSc{
+			{Calls: []CallSc{{Kind: "request", Via: via, Bytes: true}, {Kind: "request", Via: via, Bytes: true}}}}})
 	}
 	if tier == "thorough" {
 		for cy := 0; cy < 12; cy++ {
